@@ -40,6 +40,7 @@ SUBJ = {
  "F52": "plain validate exited 0 when a rules file could not be read",
  "F51": "a data file holding several YAML documents was evaluated",
  "F53": "the error for a rule that does not exist listed the known rule names in hash order",
+ "F54": "a key capture that shares its name with a `let` variable",
  "F31": "`test` listed the rules of a test case in a different order",
 }
 log = subprocess.run(["git", "-C", "/repo", "log", "--format=%h %s"], capture_output=True, text=True).stdout.splitlines()
